@@ -1,4 +1,5 @@
-import GeomV.C19.AStar
+import Mathlib.Analysis.Complex.Norm
+import GeomV.C19.Net
 /-!
 # C19 — property theorems
 -/
@@ -138,5 +139,167 @@ theorem consistent_zero (G : Graph α) (hw : NonnegW G) (t : Nat) : Consistent G
   intro x y hxy
   have := hw x y hxy
   simp; exact this
+
+/-! ### the heuristic of `route.go` (after the fix) is consistent -/
+
+/-- what the heuristic needs from the geometry and the network: `op.Distance` obeys the triangle
+inequality, a link is at least as long as the distance between its end NODES (true when end points
+and node positions coincide exactly, see `polyLen_ge_chord`; within 1e-9 relative otherwise),
+and every link's speed is positive and at most the tracked MAXIMUM speed. -/
+structure GeoOk (geo : Geo α) (net : Net α) : Prop where
+  tri : ∀ p q r, geo.euclid p r ≤ geo.euclid p q + geo.euclid q r
+  chord : ∀ e ∈ net.edges, ∀ pa pb, nodePos net e.a = some pa → nodePos net e.b = some pb →
+    geo.euclid pa pb ≤ e.length ∧ geo.euclid pb pa ≤ e.length
+  speed : ∀ e ∈ net.edges, 0 < e.speed ∧ e.speed ≤ net.maxSpeed ∧ e.time = e.length / e.speed
+
+theorem nodePos_of_hasNode (net : Net α) (i : Nat) (h : hasNode net i = true) : ∃ p, nodePos net i = some p := by
+  obtain ⟨m, hm, hid⟩ := (hasNode_iff net i).1 h
+  unfold nodePos
+  cases hf : net.nodes.find? (fun n => n.id == i) with
+  | some x => exact ⟨x.p, rfl⟩
+  | none =>
+    have := List.find?_eq_none.1 hf m hm
+    simp [hid] at this
+
+/-- **The heuristic is consistent**: `h(x,t) ≤ w(x,y) + h(y,t)` on every link, for `h` = straight-line
+distance (Distance option) or straight-line distance / MAXIMUM speed (Time option) — the hypothesis
+under which gonum's closed-set A* is optimal (`astar_optimal`).  With the minimum speed (the code
+before fix 84b0569) `h2` below has no counterpart and the statement fails (findings/C19.json). -/
+theorem heuristic_consistent (geo : Geo α) (net : Net α) (ord : Nat → List Nat → List Nat)
+    (hord : ∀ u l x, x ∈ ord u l ↔ x ∈ l) (hwf : WF net) (hg : GeoOk geo net) (t : Nat) :
+    Consistent (netGraph net ord) (heuristic geo net) t := by
+  intro x y hxy
+  obtain ⟨e, _, hm, hj, _, _, hw⟩ := adj_edge net ord hord hwf x y hxy
+  rw [hw]
+  obtain ⟨hl0, ht0⟩ := hwf.nonneg e hm
+  have hc0 : 0 ≤ ecost net.opt e := by unfold ecost; cases net.opt <;> simp [hl0, ht0]
+  obtain ⟨ha, hb⟩ := hwf.ends e hm
+  have hx : hasNode net x = true := by
+    rcases hj with h | h
+    · rw [← h.1]; exact ha
+    · rw [← h.2]; exact hb
+  have hy : hasNode net y = true := by
+    rcases hj with h | h
+    · rw [← h.2]; exact hb
+    · rw [← h.1]; exact ha
+  obtain ⟨px, hpx⟩ := nodePos_of_hasNode net x hx
+  obtain ⟨py, hpy⟩ := nodePos_of_hasNode net y hy
+  unfold heuristic
+  rw [hpx, hpy]
+  cases hpt : nodePos net t with
+  | none => simpa using hc0
+  | some pt =>
+    have hch : geo.euclid px py ≤ e.length := by
+      rcases hj with h | h
+      · exact (hg.chord e hm px py (by rw [h.1]; exact hpx) (by rw [h.2]; exact hpy)).1
+      · exact (hg.chord e hm py px (by rw [h.1]; exact hpy) (by rw [h.2]; exact hpx)).2
+    have htri := hg.tri px py pt
+    obtain ⟨hs0, hsM, hte⟩ := hg.speed e hm
+    have hM : 0 < net.maxSpeed := lt_of_lt_of_le hs0 hsM
+    simp only []
+    cases ho : net.opt with
+    | distance => simp only [ecost, ho]; linarith
+    | time =>
+      simp only [ecost, ho]
+      rw [hte]
+      have h1 : geo.euclid px pt / net.maxSpeed ≤ (e.length + geo.euclid py pt) / net.maxSpeed :=
+        div_le_div_of_nonneg_right (by linarith) (le_of_lt hM)
+      have h2 : e.length / net.maxSpeed ≤ e.length / e.speed :=
+        div_le_div_of_nonneg_left hl0 hs0 hsM
+      rw [add_div] at h1
+      linarith
+
+/-- sum of the distances of consecutive vertices (`op.Length` of a line string) -/
+def polyLenG (geo : Geo α) : List (Pt α) → α
+  | p :: q :: r => geo.euclid p q + polyLenG geo (q :: r)
+  | _ => 0
+
+/-- **A link is at least as long as its chord** (triangle inequality along the vertices): discharges
+`GeoOk.chord` whenever the link's end points are exactly the positions of its end nodes. -/
+theorem polyLen_ge_chord (geo : Geo α) (tri : ∀ p q r, geo.euclid p r ≤ geo.euclid p q + geo.euclid q r)
+    (hrefl : ∀ p, geo.euclid p p ≤ 0) (p0 : Pt α) (rest : List (Pt α)) :
+    geo.euclid p0 ((p0 :: rest).getLast (by simp)) ≤ polyLenG geo (p0 :: rest) := by
+  induction rest generalizing p0 with
+  | nil => simpa [polyLenG] using hrefl p0
+  | cons q rest ih =>
+    have h1 := ih q
+    have h2 := tri p0 q ((q :: rest).getLast (by simp))
+    simp only [polyLenG, List.getLast_cons_cons]
+    linarith
+
+/-- Euclidean distance of the plane over ℝ (`op.Distance`: `sqrt(dx² + dy²)`) -/
+noncomputable def euclidR (p q : Pt ℝ) : ℝ := Real.sqrt ((p.x - q.x) ^ 2 + (p.y - q.y) ^ 2)
+
+/-- **Triangle inequality for `op.Distance` over ℝ** — `GeoOk.tri` holds for the real geometry. -/
+theorem euclidR_tri (p q r : Pt ℝ) : euclidR p r ≤ euclidR p q + euclidR q r := by
+  have h := dist_triangle (⟨p.x, p.y⟩ : ℂ) ⟨q.x, q.y⟩ ⟨r.x, r.y⟩
+  simpa [Complex.dist_eq_re_im, euclidR] using h
+
+theorem euclidR_self (p : Pt ℝ) : euclidR p p ≤ 0 := by simp [euclidR]
+
+/-! ### ShortestRoute -/
+
+/-- contract of the R-tree query used here: the nearest neighbour is one of the stored nodes -/
+def NearestMem (geo : Geo α) : Prop := ∀ l p x, geo.nearest l p = some x → x ∈ l
+
+/-- **ShortestRoute returns a minimum-cost chain of links.**  Given that the value handed to gonum
+implements `path.Weighted` (`implementsWeighted = true`, tied by the harness) and the heuristic is
+consistent (`heuristic_consistent`: maximum-speed heuristic), for ANY heap tie-breaking (`PickSpec`)
+and ANY map iteration order (`ord`), on a well-formed network without parallel links, when the node
+`s` nearest the start point and the node `t` nearest the end point are joined by some chain of links:
+the call does not panic; the returned links form a chain from `s` to `t` (each link shares an end
+node with the next); the reported distance and time are the sums over the returned links; and the
+minimised quantity is minimal over ALL chains of links from `s` to `t`. -/
+theorem C19_route (geo : Geo α) (pick : Pick α) (ord : Nat → List Nat → List Nat) (net : Net α)
+    (from_ to_ : Pt α) (s t : MNode α)
+    (hP : PickSpec pick) (hord : ∀ u l x, x ∈ ord u l ↔ x ∈ l) (hwf : WF net) (hnp : NoParallel net)
+    (hnear : NearestMem geo) (hs : geo.nearest net.nodes from_ = some s) (ht : geo.nearest net.nodes to_ = some t)
+    (hC : Consistent (netGraph net ord) (heuristic geo net) t.id)
+    (hconn : ∃ es0, (∀ e ∈ es0, e ∈ net.edges) ∧ EChain s.id es0 t.id) :
+    ∃ r es, shortestRoute geo pick true ord net from_ to_ = .ok r ∧
+      r.startNode = s.id ∧ r.endNode = t.id ∧
+      r.startDistance = geo.euclid from_ s.p ∧ r.endDistance = geo.euclid to_ t.p ∧
+      r.links = es.map (·.link) ∧ (∀ e ∈ es, e ∈ net.edges) ∧ EChain s.id es t.id ∧
+      r.distance = esum (·.length) es ∧ r.time = esum (·.time) es ∧
+      ∀ es', (∀ e ∈ es', e ∈ net.edges) → EChain s.id es' t.id →
+        esum (ecost net.opt) es ≤ esum (ecost net.opt) es' := by
+  have hsn : s.id < net.nodes.length + 1 := hwf.ids s (hnear _ _ _ hs)
+  obtain ⟨st, hst, hres⟩ := astar_optimal (adapter geo net true ord) (netGraph net ord) pick s.id t.id
+    (net.nodes.length + 1) (net.nodes.length + 2) hP (weightsOk_net geo net ord hord hwf) hC
+    (inRange_net net ord hord hwf) hsn (le_refl _)
+  obtain ⟨es0, hes0, hch0⟩ := hconn
+  obtain ⟨p0, hp0, he0, _⟩ := chain_walk net ord hord hwf hnp es0 s.id t.id hes0 hch0
+  rcases hres with ⟨c, p, hd, hmin, hto, hw, hend, hcost⟩ | ⟨_, hnr, _⟩
+  · obtain ⟨es, h1, h2, h3, h4⟩ := collect_walk net ord hord hwf p s.id hw
+    rw [hend] at h2
+    refine ⟨⟨es.map (·.link), esum (·.length) es, esum (·.time) es, geo.euclid from_ s.p, geo.euclid to_ t.p, s.id, t.id⟩,
+      es, ?_, rfl, rfl, rfl, rfl, rfl, h3, h2, rfl, rfl, ?_⟩
+    · simp only [shortestRoute, hs, ht, hst, hto, h1]
+    · intro es' hes' hch'
+      obtain ⟨p', hp', he', hc'⟩ := chain_walk net ord hord hwf hnp es' s.id t.id hes' hch'
+      rw [← h4, hcost, ← hc']
+      exact hmin.2 p' hp' he'
+  · exact absurd ⟨p0, hp0, he0⟩ hnr
+
+/-- **Unconnected nodes give the empty route** (and zero totals, no panic): when no chain of links
+leads from the node nearest the start point to the node nearest the end point. -/
+theorem C19_unreachable (geo : Geo α) (pick : Pick α) (ord : Nat → List Nat → List Nat) (net : Net α)
+    (from_ to_ : Pt α) (s t : MNode α)
+    (hP : PickSpec pick) (hord : ∀ u l x, x ∈ ord u l ↔ x ∈ l) (hwf : WF net)
+    (hnear : NearestMem geo) (hs : geo.nearest net.nodes from_ = some s) (ht : geo.nearest net.nodes to_ = some t)
+    (hC : Consistent (netGraph net ord) (heuristic geo net) t.id)
+    (hdis : ¬ ∃ es0, (∀ e ∈ es0, e ∈ net.edges) ∧ EChain s.id es0 t.id) :
+    ∃ r, shortestRoute geo pick true ord net from_ to_ = .ok r ∧ r.links = [] ∧ r.distance = 0 ∧ r.time = 0 ∧
+      r.startNode = s.id ∧ r.endNode = t.id := by
+  have hsn : s.id < net.nodes.length + 1 := hwf.ids s (hnear _ _ _ hs)
+  obtain ⟨st, hst, hres⟩ := astar_optimal (adapter geo net true ord) (netGraph net ord) pick s.id t.id
+    (net.nodes.length + 1) (net.nodes.length + 2) hP (weightsOk_net geo net ord hord hwf) hC
+    (inRange_net net ord hord hwf) hsn (le_refl _)
+  rcases hres with ⟨c, p, hd, hmin, hto, hw, hend, hcost⟩ | ⟨_, hnr, hto⟩
+  · obtain ⟨es, h1, h2, h3, h4⟩ := collect_walk net ord hord hwf p s.id hw
+    rw [hend] at h2
+    exact absurd ⟨es, h3, h2⟩ hdis
+  · refine ⟨⟨[], 0, 0, geo.euclid from_ s.p, geo.euclid to_ t.p, s.id, t.id⟩, ?_, rfl, rfl, rfl, rfl, rfl⟩
+    simp only [shortestRoute, hs, ht, hst, hto, collect]
 
 end GeomV.C19
